@@ -2,7 +2,7 @@
    Model: Mdk/Engine.v (tied to the code by proto_diff on both backends).  The unrestricted statement is FALSE of the faithful
    model (and of the code): the refutation theorems below are the known findings; the positive theorem is the regime in
    which the harness treats any divergence as a violation. *)
-From MDK Require Import Base.Prelude Base.AMap Mdk.Engine Mdk.EngineSpec Mdk.EngineProofs.
+From MDK Require Import Base.Prelude Base.AMap Mdk.Engine Mdk.EngineSpec Mdk.EngineProofs Mdk.EngineProofs6.
 
 Theorem C01_mip03_irreflexive : forall a, ~ mip03_lt a a.
 Proof. exact mip03_lt_irrefl. Qed.
@@ -60,3 +60,66 @@ Print Assumptions C01_ahead_of_predecessor_refuted.
 
 Example C01_fork_example : C01_fork_example_statement.
 Proof. exact c01_fork_example. Qed.
+
+(* ================================================================ chains of forks (epoch-causal delivery); proofs in Mdk/EngineProofs6.v *)
+(* STATEMENT CHANGE (theorems 1-2): `fork_ready` alone is NOT preserved by resolving a fork.  Its last clause only constrains
+   the stored exporter secret of the CURRENT epoch; a secret filed under the NEXT epoch naming another state survives the fork
+   (ensure_secret keeps an existing entry) and makes the client unready at the next epoch - and really unable to open the next
+   fork's wrappers.  Witness below (by computation).  Such a state is unreachable (a rollback restores the stored secrets with
+   the MLS state), so the theorems are stated with
+     fork_ready_inv c := fork_ready c /\ no_future_secrets (kc c)        (EngineSpec.v)
+   which holds for init_client / join_client (1 <= retention), implies fork_ready, and IS preserved. *)
+Theorem C01_fork_ready_not_preserved : exists c K ds,
+  fork_ready c /\ fork_set c K /\ (forall e, In e ds -> In e K) /\ (forall e, In e K -> In e ds) /\
+  ~ fork_ready (deliver_all c ds).
+Proof. exact fork_ready_not_preserved. Qed.
+Print Assumptions C01_fork_ready_not_preserved.
+
+Theorem C01_fork_ready_inv_init : forall i a r, 1 <= r -> fork_ready_inv (init_client i a r).
+Proof. exact fork_ready_inv_init. Qed.
+Theorem C01_fork_ready_inv_join : forall i a r cur ep data, 1 <= r -> fork_ready_inv (join_client i a r cur ep data).
+Proof. exact fork_ready_inv_join. Qed.
+Theorem C01_fork_ready_inv_fork_ready : forall c, fork_ready_inv c -> fork_ready c.
+Proof. exact fork_ready_inv_fork_ready. Qed.
+
+(* 1. resolving a fork leaves the client ready for the next one *)
+Theorem C01_fork_ready_preserved : forall c K ds,
+  fork_ready_inv c -> fork_set c K -> (forall e, In e ds -> In e K) -> (forall e, In e K -> In e ds) ->
+  fork_ready_inv (deliver_all c ds).
+Proof. exact fork_ready_inv_preserved. Qed.
+Print Assumptions C01_fork_ready_preserved.
+
+(* 2. any number of successive forks, each of any width, each delivered in any order with any repetitions: the client follows
+      the chain of MIP-03 minima *)
+Theorem C01_causal_chain_converges : forall rounds c d,
+  fork_ready_inv c -> rounds_ok c rounds ->
+  let c' := run_rounds c rounds in
+  fork_ready_inv c' /\ k_epoch (kc c') = k_epoch (kc c) + lenN rounds /\
+  (forall K ds, last rounds ([], []) = (K, ds) -> rounds <> [] -> k_cur (kc c') = e_id (mip03_min d K) + 1).
+Proof. exact causal_chain_converges. Qed.
+Print Assumptions C01_causal_chain_converges.
+
+(* the same from a fresh client (no side condition left but the retention bound) *)
+Theorem C01_causal_chain_from_init : forall i a r rounds d, 1 <= r -> rounds_ok (init_client i a r) rounds ->
+  let c' := run_rounds (init_client i a r) rounds in
+  fork_ready_inv c' /\ k_epoch (kc c') = 1 + lenN rounds /\
+  (forall K ds, last rounds ([], []) = (K, ds) -> rounds <> [] -> k_cur (kc c') = e_id (mip03_min d K) + 1).
+Proof. exact causal_chain_from_init. Qed.
+Print Assumptions C01_causal_chain_from_init.
+
+(* 3. stale re-deliveries are harmless: after a fork was resolved, offering any of its commits again (winner or loser), any
+      number of times, changes nothing observable - as long as that epoch's snapshot is still the one taken for the winner.
+      Proved AS STATED (plain fork_ready suffices). *)
+Theorem C01_resolved_fork_redelivery_harmless : forall c K ds e,
+  fork_ready c -> fork_set c K -> (forall e, In e ds -> In e K) -> (forall e, In e K -> In e ds) -> In e K ->
+  proj (fst (deliver (deliver_all c ds) e)) = proj (deliver_all c ds).
+Proof. exact resolved_fork_redelivery_harmless. Qed.
+Print Assumptions C01_resolved_fork_redelivery_harmless.
+
+(* ... any list of them *)
+Theorem C01_resolved_fork_redeliveries_harmless : forall c K ds es,
+  fork_ready c -> fork_set c K -> (forall e, In e ds -> In e K) -> (forall e, In e K -> In e ds) ->
+  (forall e, In e es -> In e K) ->
+  proj (deliver_all (deliver_all c ds) es) = proj (deliver_all c ds).
+Proof. exact resolved_fork_redeliveries_harmless. Qed.
+Print Assumptions C01_resolved_fork_redeliveries_harmless.
